@@ -6,7 +6,7 @@ import ast
 
 from ..cfg import cfg_of
 from ..model import AnalysisError, call_name, calls_in, dotted, norm, walk_no_nested
-from .. import rules
+from .. import normal, rules
 from .. import conds as cnd
 
 META = {
@@ -117,14 +117,17 @@ def check_ack_table(ctx):
     want = {"RPTID_REDEFINED": ["report.RPTID in self._registered_reports and len(report.VID) > 0"], "VID_UNKNOWN": ["vid not in self._data_values and vid not in self._status_variables"]}
     _cond_table(ctx, f, cfg, "drack", want)
     f = repo.method("CollectionEventCapability", "_on_s02f35", inherited=False)
-    cfg = cfg_of(f.node)
+    f35 = normal.normalised(ctx, f)
+    cfg = cfg_of(f35)
     want = {"CEID_UNKNOWN": ["event.CEID.get() not in self._collection_events"], "CEID_LINKED": ["rptid.get() in collection_event.reports"], "RPTID_UNKNOWN": ["rptid.get() not in self._registered_reports"]}
-    _cond_table(ctx, f, cfg, "lrack", want)
+    _cond_table(ctx, f, cfg, "lrack", want, node=f35)
     f = repo.method("CollectionEventCapability", "_on_s02f37", inherited=False)
     ctx.touch(f)
     cfg = cfg_of(f.node)
     errs = [n for n in cfg.real_nodes() if isinstance(n.ast, ast.Assign) and "ERACK.CEID_UNKNOWN" in norm(n.ast.value)]
-    ok = len(errs) == 1 and any("self._set_ce_state(" in norm(t) and isinstance(t, ast.UnaryOp) and v for t, v in cfg.dominating_conditions(errs[0]))
+    ok = len(errs) == 1 and any(t.startswith("self._set_ce_state(") and not pol for t, pol in cnd.facts(cfg, errs[0]))
+    accepts = [n for n in cfg.real_nodes() if isinstance(n.ast, ast.Assign) and "ERACK.ACCEPTED" in norm(n.ast.value)]
+    ok = ok and bool(accepts) and not any(t.startswith("self._set_ce_state(") and not pol for n in accepts for t, pol in cnd.facts(cfg, n))
     ctx.ob("C12.T1", f.qualname, ok, "S2F38 is CEID_UNKNOWN iff _set_ce_state reports an unknown CEID" if ok else "ERACK is not derived from _set_ce_state's result", where=f.where)
     c = [c for c in calls_in(f.node) if call_name(c) == "self._set_ce_state"]
     got = [rules.expand(f.node, a) for a in c[0].args] if c else None
@@ -142,11 +145,12 @@ MENTIONS = {
 }
 
 
-def _cond_table(ctx, f, cfg, ack, want):
+def _cond_table(ctx, f, cfg, ack, want, node=None):
     """Refusal rules of one pre-check pass: every refusing test is evaluated for every entry (unless the path
     already refuses), the verdict is monotone (never reset to 0), each constant is guarded by a membership test on the
     right table."""
     ctx.touch(f)
+    fnode = node if node is not None else f.node
     loops = [n for n in cfg.nodes if n.kind == "iter" and norm(n.ast.iter).endswith(".DATA")]
     pre = loops[0]
     body = rules.branch_marker(pre, "true")
@@ -169,19 +173,19 @@ def _cond_table(ctx, f, cfg, ack, want):
         for n in nodes:
             tables, polarity = MENTIONS[const]
             conds = cfg.dominating_conditions(n)
-            expanded = [(rules.expand(f.node, t), v) for t, v in conds]
+            expanded = [(rules.expand(fnode, t), v) for t, v in conds]
             # canonical membership atoms of the (expanded) tests that dominate the assignment: `x in T` with a polarity,
             # whatever the spelling; a false conjunction / true disjunction decides nothing about one membership
             atoms = set()
             for t, v in conds:
-                for atom, pol in cnd.canon(rules.expand_ast(f.node, t), v):
+                for atom, pol in cnd.canon(rules.expand_ast(fnode, t), v):
                     if not atom.startswith("ALL[") and " in " in atom:
                         atoms.add((atom, pol))
             hit = all(any(tb in a_txt and ("in" if a_pol else "not in") == polarity for a_txt, a_pol in atoms) for tb in tables)
             ctx.ob("C12.T1", f.qualname, hit, f"{const} is reported when the id is {polarity} {' / '.join(tables)}" if hit else
                    f"{const} is reported under {[(t, v) for t, v in expanded]}, which is not the test `id {polarity} {' / '.join(tables)}`", key="cond " + const, where=f.where)
             # the guarding test is evaluated for every entry unless the path refuses anyway
-            tests = [x for x in cfg.nodes if x.kind == "test" and any(x.ast is t for t, _ in conds) and all(tb in rules.expand(f.node, x.ast) for tb in tables)]
+            tests = [x for x in cfg.nodes if x.kind == "test" and any(x.ast is t for t, _ in conds) and all(tb in rules.expand(fnode, x.ast) for tb in tables)]
             if not tests:
                 continue
             T = tests[-1]
@@ -192,13 +196,13 @@ def _cond_table(ctx, f, cfg, ack, want):
             # is legitimately skipped when the precondition fails
             import re as _re
 
-            support = set(_re.findall(r"self\._[a-z_]+", rules.expand(f.node, T.ast)))
+            support = set(_re.findall(r"self\._[a-z_]+", rules.expand(fnode, T.ast)))
             allowed = []
             for t, v in cfg.dominating_conditions(T):
                 tn = next((x for x in cfg.nodes if x.kind == "test" and x.ast is t), None)
                 if tn is None or tn is T or not cfg.path_exists(start, tn, avoid=[L]):
                     continue
-                mentioned = set(_re.findall(r"self\._[a-z_]+", rules.expand(f.node, t)))
+                mentioned = set(_re.findall(r"self\._[a-z_]+", rules.expand(fnode, t)))
                 if mentioned and mentioned <= support:
                     allowed.append(rules.branch_marker(tn, "false" if v else "true"))
             skip = cfg.path_exists(start, L, avoid=[T] + assigns + allowed)
@@ -249,12 +253,13 @@ def check_integrity(ctx):
     # S2F35
     g = repo.method("CollectionEventCapability", "_on_s02f35", inherited=False)
     ctx.touch(g)
-    gcfg = cfg_of(g.node)
+    gn = normal.normalised(ctx, g)  # locals for the repeated `event.CEID.get()` are spelled out
+    gcfg = cfg_of(gn)
     dels = [n for n in gcfg.real_nodes() if isinstance(n.ast, ast.Delete) and norm(n.ast.targets[0]) == "self._registered_collection_events[event.CEID.get()]"]
     ok = len(dels) == 1 and cnd.holds(gcfg, dels[0], "not event.RPTID")
     ctx.ob("C12.R1", g.qualname, ok, "S2F35 with an empty report list deletes the link" if ok else "the unlink form does not delete the link", key="unlink", where=g.where)
     new = [n for n in gcfg.real_nodes() if isinstance(n.ast, ast.Assign) and norm(n.ast.targets[0]) == "self._registered_collection_events[event.CEID.get()]"]
-    ok = len(new) == 1 and rules.expand(g.node, new[0].ast.value).replace(" ", "") == "CollectionEventLink(self._collection_events[event.CEID.get()],event.RPTID.get())"
+    ok = len(new) == 1 and rules.expand(gn, new[0].ast.value).replace(" ", "") == "CollectionEventLink(self._collection_events[event.CEID.get()],event.RPTID.get())"
     ctx.ob("C12.R1", g.qualname, ok, "a new link is created for the named event with the listed reports in order" if ok else "a new link is not CollectionEventLink(collection_events[CEID], RPTID list)", key="new-link", where=g.where)
     apps = [(n, c) for n in gcfg.real_nodes() for c in n.calls if isinstance(c.func, ast.Attribute) and c.func.attr == "append" and norm(c.func.value).endswith(".reports")]
     ok = len(apps) == 1 and any(x.kind == "iter" and norm(x.ast.iter) == "event.RPTID.get()" and gcfg.path_exists(rules.branch_marker(x, "true"), apps[0][0], avoid=[x]) for x in gcfg.nodes)
